@@ -120,6 +120,12 @@ CHECKS = {
         text="For every uninterrupted split run a warm-started run from every completed output file is executed. TLC validates the restarted run's whole trace against the composed specification started from the uninterrupted run's recorded state at the restart record (catch-up step without output, releases at the start time skipped, identifiers continuing, file numbers continuing) and decides the relation: every record written after the restart and before the (step-aligned) stop time equals the uninterrupted run's record at that time - particle sets, identifiers, positions, ages (bit-for-bit digests) - and the particle variables agree.",
         note="Forward time, diffusion off. Output without particle variables falls back to max(pid)+1 for the identifier counter (documented limitation of the repaired code, not exercised).",
         design="6 C08"),
+    "C18": dict(
+        level="model_checking",
+        technique="TLA+ spec Config (feature vector -> three renderings -> meaning) model-checked with TLC (MC_Config); configure() on the three generated documents validated against Config!Canon (ConfigTrace); outputs of the three runs related by PairTrace (same)",
+        text="TLC checks for every feature vector that the v2 and v1 renderings mean the canonical configuration (grid file = explicit or first forcing file also for a wildcard, sub-rectangle kept, optional sections empty or omitted); for generated feature vectors the three documents (YAML v2, TOML v2, legacy YAML v1) are written, configure() of each is projected and compared by TLC with the canonical configuration, and ladim.main on each must produce identical records, file names and particle variables (bit-for-bit digests).",
+        note="Default modules (no recording plug-ins: the v1 spelling cannot name them). Diffusion off.",
+        design="6 C18"),
 }
 
 NOT_YET = {}
